@@ -143,7 +143,21 @@ pub fn arith(op: u8, ka: u8, kb: u8, check_value: bool) {
     if check_value {
         let want = ref_arith(op, view(&a), view(&b));
         match want {
-            Some(w) => assert!(same(view(&r), w), "VERIF: operator result differs from the numeric model"),
+            Some(w) => {
+                if op == ADD || op == MUL {
+                    // The reference is also evaluated with the operands commuted: same value, but a
+                    // bit-blasting solver cannot prove 64-bit x*y == y*x in reasonable time, and an
+                    // implementation is free to multiply in either order (seen with a behaviour-
+                    // preserving refactoring that merged the Integer*Byte and Byte*Integer arms).
+                    let w2 = match ref_arith(op, view(&b), view(&a)) {
+                        Some(x) => x,
+                        None => w,
+                    };
+                    assert!(same(view(&r), w) || same(view(&r), w2), "VERIF: operator result differs from the numeric model");
+                } else {
+                    assert!(same(view(&r), w), "VERIF: operator result differs from the numeric model");
+                }
+            }
             None => panic!("VERIF: unreachable, zero divisor was assumed away"),
         }
     }
